@@ -145,8 +145,10 @@ package netceptor
 //@   ensures result == fwres(rule, md)
 
 //@ func (*Netceptor).sendUnreachable
-//@   tags C07
+//@   tags C07 C16 C10
 //@   requires s != nil
+//@   site call Marshal THEMESSAGE: [C16] requires arg0 == box(message)
+//@   site call sendMessage TOSOURCE: [C16 C10] requires arg1 == "unreach" && arg2 == toNode && arg3 == "unreach" && arg4 == lastcall("Marshal", 0) && lastcall("Marshal", 1) == nil
 
 //@ func (*Netceptor).dispatchReservedService
 //@   tags C07
@@ -216,10 +218,16 @@ package netceptor
 //@   inv KCC: s.knownConnectionCosts != nil && s.knownNodeInfo != nil && forall k string :: (k in s.knownConnectionCosts) ==> s.knownConnectionCosts[k] != nil
 //@   inv KNI: forall k string :: (k in s.knownNodeInfo) ==> s.knownNodeInfo[k] != nil
 
+// forgetting a neighbour removes the session from the connection table and both directions of the link from the
+// node's own picture (and nothing else of the picture)
 //@ func (*Netceptor).removeConnection
-//@   tags C07 C11
+//@   tags C07 C11 C01
 //@   safety
 //@   requires s != nil
+//@   site delete Netceptor.connections THESESSION: [C11 C01] requires key == remoteNodeID && remoteNodeID != ""
+//@   site delete map[string]float64 BOTHSIDES: [C01] requires (key == s.nodeID && themap == s.knownConnectionCosts[remoteNodeID]) || (key == remoteNodeID && themap == s.knownConnectionCosts[s.nodeID])
+//@   ghostflag dropped set delete:Netceptor.connections
+//@   ensures DROPPED: [C11 C01] remoteNodeID != "" ==> flag("dropped")
 
 //@ func (*Netceptor).sendRejectMessage
 //@   tags C07 C11
@@ -316,9 +324,25 @@ package netceptor
 //@   requires s != nil
 //@   modifies nothing
 
-//@ func (*Netceptor).sendRoutingUpdate
-//@   tags C06 C07
+//@ monitor (s *Netceptor) sequenceLock
+//@   protects sequence
+
+// the node's own update: its own ID as origin and forwarder, its own epoch, a sequence number one higher than the last
+// (assigned under sequenceLock), and exactly the costs of its current connections
+//@ func (*Netceptor).makeRoutingUpdate
+//@   tags C06 C01
 //@   requires s != nil
+//@   site mapupdate map[string]float64 OWNLINKS: [C01] requires key == conn && (conn in s.connections) && value == s.connections[conn].Cost
+//@   ensures OWNUPDATE: [C06 C01] result != nil && result.NodeID == s.nodeID && result.ForwardingNode == s.nodeID && result.UpdateEpoch == s.epoch
+//@        && result.SuspectedDuplicate == suspectedDuplicate
+//@   atrelease NEXTSEQ: [C06] result.UpdateSequence == s.sequence && s.sequence == acqof("sequenceLock", s.sequence) + 1
+
+//@ func (*Netceptor).sendRoutingUpdate
+//@   tags C06 C07 C01
+//@   requires s != nil
+//@   site call makeRoutingUpdate SUSPICION: [C06] requires arg1 == suspectedDuplicate
+//@   site call translateStructToNetwork ASROUTE: [C06 C01] requires arg1 == MsgTypeRoute && arg2 == box(ru) && ru == lastcall("makeRoutingUpdate", 0)
+//@   site call flood TOALL: [C06 C01] requires arg1 == lastcall("translateStructToNetwork", 0) && arg2 == "" && lastcall("translateStructToNetwork", 1) == nil
 
 //@ func (*Netceptor).translateStructToNetwork
 //@   tags C07
@@ -491,10 +515,14 @@ package netceptor
 // ---- C17: closing never panics and releases what the object registered
 
 //@ func (*Netceptor).RemoveLocalServiceAdvertisement
-//@   tags C17
+//@   tags C17 C18
 //@   safetytags C17
 //@   safety
 //@   requires s != nil
+//@   site delete map[string]*ServiceAdvertisement WITHDRAWN: [C18] requires key == service && themap == s.serviceAdsReceived[s.nodeID]
+//@   site call translateStructToNetwork ASCANCEL: [C18] requires arg1 == MsgTypeServiceAdvertisement && arg2 == box(sa) && sa.Cancel && sa.ServiceAdvertisement != nil
+//@        && sa.ServiceAdvertisement.NodeID == s.nodeID && sa.ServiceAdvertisement.Service == service && sa.ServiceAdvertisement.Time == lastcall("Now", 0)
+//@   site call flood TOALL: [C18] requires arg1 == lastcall("translateStructToNetwork", 0) && arg2 == ""
 
 //@ iface NetcForPacketConn.GetListenerRegistry
 //@   params s
@@ -748,3 +776,55 @@ package netceptor
 //@ func (*PacketConn).SubscribeUnreachable$2
 //@   tags C16
 //@   site send * RELIABLE: [C16] requires blocking() && value == msg
+
+// ---- C02 / C10: an originated datagram carries the local node as source, the caller's service names, payload and
+// ---- hop budget unchanged; "localhost" means this node
+//@ func (*Netceptor).SendMessageWithHopsToLive
+//@   tags C02 C10
+//@   requires s != nil
+//@   site call handleMessageData ORIGINATE: [C02 C10] requires arg1 != nil && arg1.FromNode == s.nodeID && arg1.FromService == fromService && arg1.ToService == toService
+//@        && arg1.HopsToLive == hopsToLive && arg1.Data == data && (strings.EqualFold(old(toNode), "localhost") ? arg1.ToNode == s.nodeID : arg1.ToNode == old(toNode))
+//@   ensures TOOLONG: [C02] len(fromService) > 8 || len(toService) > 8 ==> result != nil
+
+// ---- C01: silent links are cut: every connection whose last received data is older than the idle limit has its
+// ---- cancel function called (and only those)
+//@ func (*Netceptor).monitorConnectionAging
+//@   tags C01 C17
+//@   requires s != nil
+//@   site block * EXITS: [C17] requires waits(ctxdone(s.context))
+//@   site mapupdate map[string]CancelFunc ONLYIDLE: [C01] requires key == conn && value == s.connections[conn].CancelFunc && lastcall("Since", 0) > s.maxConnectionIdleTime
+
+// ---- C18: what a node announces about itself: only services registered for advertisement in the listener registry,
+// ---- under its own node ID, stamped with the current time; withdrawals name the withdrawn service, its own node
+// ---- and the current time and are flooded as a cancel
+//@ func (*Netceptor).AddLocalServiceAdvertisement
+//@   tags C18
+//@   requires s != nil
+//@   site mapupdate map[string]*ServiceAdvertisement OWNAD: [C18] requires key == service && value != nil && value.NodeID == s.nodeID && value.Service == service && value.Time == lastcall("Now", 0) && value.ConnType == connType
+//@   site mapupdate Netceptor.serviceAdsReceived OWNNODE: [C18] requires key == s.nodeID
+
+//@ func (*Netceptor).sendServiceAds
+//@   tags C18
+//@   requires s != nil
+//@   site call append ONLYADVERTISED: [C18] requires arg1[0].NodeID == s.nodeID && arg1[0].Service == sn && (sn in s.listenerRegistry) && s.listenerRegistry[sn].advertise && arg1[0].Time == lastcall("Now", 0)
+
+//@ func (*Netceptor).sendServiceAd
+//@   tags C18
+//@   requires s != nil
+//@   site call translateStructToNetwork ASAD: [C18] requires arg1 == MsgTypeServiceAdvertisement && arg2 == box(sf) && sf.ServiceAdvertisement == si && !sf.Cancel
+//@   site call flood TOALL: [C18] requires arg1 == lastcall("translateStructToNetwork", 0) && arg2 == ""
+
+// ---- C16 / C10: a received notice is published to the node-wide broker as decoded from the packet, with the node
+// ---- it came from; a ping is answered to its sender's service; a notice is sent as the JSON of the message to the
+// ---- "unreach" service of the given node
+//@ func (*Netceptor).handleUnreachable
+//@   tags C16
+//@   requires s != nil && md != nil && s.unreachableBroker != nil
+//@   site call Unmarshal FROMPACKET: [C16] requires arg0 == md.Data
+//@   site call Publish ASRECEIVED: [C16] requires arg1 == box(unrData) && unrData.ReceivedFromNode == md.FromNode && lastcall("Unmarshal", 0) == nil
+//@   ensures BADNOTICE: [C16] lastcall("Unmarshal", 0) != nil ==> result != nil
+
+//@ func (*Netceptor).handlePing
+//@   tags C10 C16
+//@   requires s != nil && md != nil
+//@   site call sendMessage REPLYTOSENDER: [C10] requires arg1 == "ping" && arg2 == md.FromNode && arg3 == md.FromService && len(arg4) == 0
